@@ -615,7 +615,16 @@ def r9_unreadable_content_type_is_refused(ctx):
               "the JSON default is the `None` case of headers.get(CONTENT_TYPE) with nothing (and_then / ok / filter) turning a present header into None: %s" % ok, f)
 
 
-RULES = [("C10.R9", r9_unreadable_content_type_is_refused), ("C10.R8", r8_registration_guard_is_total), ("C10.R7", r7_numeric_range), ("C10.R6", r6_one_step_decode), ("C10.R1", r1_short_circuit), ("C10.R2", r2_tuples), ("C10.R3", r3_error_class), ("C10.R4", r4_panic_census), ("C10.R5", r5_content_type_gate)]
+
+def r_frame_errors_are_errors(ctx):
+    """C11.R7 (a failed body frame always becomes a for_bad_request error item), re-evaluated here because its violation is a
+    violation of this property too (seed C18-D)."""
+    from . import c11
+    from .lib_c01 import Renamed
+    c11.r7_frame_errors_are_errors(Renamed(ctx, "C10.R10", "a body with broken framing is refused with a 4xx before the handler runs"))
+
+
+RULES = [("C10.R10", r_frame_errors_are_errors), ("C10.R9", r9_unreadable_content_type_is_refused), ("C10.R8", r8_registration_guard_is_total), ("C10.R7", r7_numeric_range), ("C10.R6", r6_one_step_decode), ("C10.R1", r1_short_circuit), ("C10.R2", r2_tuples), ("C10.R3", r3_error_class), ("C10.R4", r4_panic_census), ("C10.R5", r5_content_type_gate)]
 
 _LOAD_BODY_HV = """            hv.to_str().map_err(|e| {
                 HttpError::for_bad_request(
